@@ -7,7 +7,7 @@ HTTP_REPO = _c07.NB_REPO
 HTTP_SHIMS = _c07.NB_SHIMS + ["shim_http.c"]
 
 TARGETS = {
-    "h_http": dict(harness=["h_http.c"], engine=["vf.c", "mc.c", "fk.c", "alloc.c"], shims=HTTP_SHIMS, repo=HTTP_REPO,
+    "h_http": dict(repo_opt="-O0", harness=["h_http.c"], engine=["vf.c", "mc.c", "fk.c", "alloc.c"], shims=HTTP_SHIMS, repo=HTTP_REPO,
                    wrap=["malloc", "calloc", "realloc", "free"]),
 }
 
